@@ -32,6 +32,7 @@ fn run_check(id: &str, tier: Tier) -> Option<Report> {
         "C13" => checks::c13::run(tier),
         "C14" => checks::c14::run(tier),
         "C15" => checks::c15::run(tier),
+        "C16" => checks::c16::run(tier),
         "C17" => checks::c17::run(tier),
         _ => return None,
     })
@@ -52,6 +53,7 @@ fn replay_case(id: &str, case: &Value) -> Option<Vec<Failure>> {
         "C13" => checks::c13::replay(case),
         "C14" => checks::c14::replay(case),
         "C15" => checks::c15::replay(case),
+        "C16" => checks::c16::replay(case),
         "C17" => checks::c17::replay(case),
         _ => return None,
     })
